@@ -77,7 +77,7 @@ def run(ctx):
         raise RuntimeError("simulation of ObjPoolMC_copysim failed: %s" % rc.errors[:2])
     ch = [json.loads(h) for h in sorted(set(tlc.tla_string_to_py(h) for h in rc.prints("HIST")))]
     rnd.shuffle(ch)
-    ptraces = ctx.drive("c19_pool", [], inp={"hists": hs[:n_pool], "stress": n_stress, "copy_hists": ch[:900 if quick else 15000]}, timeout=3000)
+    ptraces = ctx.drive("c19_pool", [], inp={"hists": hs[:n_pool], "stress": n_stress, "copy_hists": ch[:900 if quick else 15000], "storm": 400 if quick else 4000}, timeout=3000)
     pverdicts = ctx.validate("ObjPoolTrace", ptraces, family="object-pool")
     fams = {}
     for t in ptraces:
